@@ -5,6 +5,7 @@ package ir
 
 import (
 	"fmt"
+	"go/constant"
 	"go/token"
 	"go/types"
 	"sort"
@@ -919,10 +920,10 @@ func KnownNil(b *ssa.BasicBlock, same func(ssa.Value) bool) (isNil, isNonNil boo
 // ConstInt returns the integer value of a constant.
 func ConstInt(v ssa.Value) (int64, bool) {
 	c, ok := v.(*ssa.Const)
-	if !ok || c.Value == nil {
+	if !ok || c.Value == nil || c.Value.Kind() != constant.Int {
 		return 0, false
 	}
-	return c.Int64(), c.Value.Kind().String() == "Int"
+	return c.Int64(), true
 }
 
 // Instrs calls fn for every instruction of f.
@@ -1298,4 +1299,12 @@ func AllReturnsDominatedBy(ins ssa.Instruction) bool {
 		}
 	}
 	return true
+}
+
+// ElementSources traces the values stored into slice s by appends and element
+// stores (see Sources); ok is false when s has an origin that cannot be seen through.
+func (p *Prog) ElementSources(s ssa.Value) ([]ssa.Value, bool) {
+	t := &tracer{p: p, seen: map[ssa.Value]bool{}}
+	ok := t.elements(s, 0)
+	return t.out, ok
 }
